@@ -33,6 +33,7 @@ type Program struct {
 	InitPkgs []string // packages whose init is executed (in order)
 	covMu    sync.Mutex
 	Covered  map[string]int // repo functions executed -> instruction count
+	coverSeen sync.Map      // unit/tag already witnessed
 }
 
 func (p *Program) info(fn *ssa.Function) *fnInfo {
@@ -144,6 +145,8 @@ type Interp struct {
 	modelValid bool
 	pathVars   []*Term
 	pcSet      map[int]bool
+	pcVars     []*Term
+	pcSeen     map[int]bool
 	InitProblems []string
 	decProv  map[string]*Term
 }
@@ -177,6 +180,7 @@ func (in *Interp) RunInits() (err error) {
 	in.decProv = map[string]*Term{}
 	in.ufCalls = map[string][]ufCall{}
 	in.pcSet = map[int]bool{}
+	in.pcSeen = map[int]bool{}
 	in.env = newEnvState(in)
 	in.sched = newScheduler(in)
 	in.sched.runMain(func() {})
@@ -305,6 +309,8 @@ func (in *Interp) RunPath(unit string, fn *ssa.Function, prefix []Decision) (res
 	in.nondet = in.nondet[:0]
 	in.pathVars = in.pathVars[:0]
 	in.pcSet = map[int]bool{}
+	in.pcSeen = map[int]bool{}
+	in.pcVars = in.pcVars[:0]
 	in.modelValid = false
 	in.unit = unit
 	in.ufCalls = map[string][]ufCall{}
@@ -359,6 +365,7 @@ func (in *Interp) assume(c *Term) {
 		}
 	}
 	in.pcSet[c.ID] = true
+	in.notePCVars(c)
 	in.sol.Assert(c)
 	if in.modelValid && !in.evalBool(c) {
 		in.modelValid = false
